@@ -1,6 +1,6 @@
 """C03 — TL2 binary round trip of generated Go code (DESIGN.md §4 C03)."""
 from checks import codec_common as cc, codec_tl2 as t2
-from vlib.core import hx
+from vlib.core import hx, run_lines
 
 MODULES = ["TLVerif.Props.C03"]
 THEOREMS = ["TLVerif.Props.C03." + t for t in [
@@ -9,6 +9,28 @@ THEOREMS = ["TLVerif.Props.C03." + t for t in [
 
 # witness inputs of the known finding (bit behind an alias / inside Maybe): what the reader accepts is re-written to bytes it rejects
 BIT_WITNESS = [("y.flag", "01"), ("y.useFlag", "06060100000001"), ("y.maybeBit", "050203030101")]
+
+
+# []byte variants: a dictionary read by ReadTL2 loses its contents (elements are read into copies)
+BYTES_WITNESS = ("cases_bytes.testDictInt", "0d020b0109060100000002000000")
+BYTES_KEY = "codec.r2 cases 84 cases_bytes.testDictInt 0d020b0109060100000002000000 #bytes"
+
+
+def cc_reach(sc, ty, seen=None):
+    """instance kinds reachable from ty"""
+    seen = seen if seen is not None else set()
+    if ty in seen:
+        return set()
+    seen.add(ty)
+    i = sc.desc["instances"][ty]
+    res = {i["kind"]}
+    for f in i.get("fields") or []:
+        res |= cc_reach(sc, f["ty"], seen)
+    if i.get("elem"):
+        res |= cc_reach(sc, i["elem"]["ty"], seen)
+    for v in i.get("variants") or []:
+        res |= cc_reach(sc, v, seen)
+    return res
 
 
 def bit_schema():
@@ -31,6 +53,7 @@ def run(c):
     for sc in schemas:
         pre = [sc.desc_line()]
         by_name = {inst["tlname"]: inst for inst, _ in sc.items}
+        produced = {}
         lines1, lines2 = [], set(l for l in replay if l.split(" ")[1] == sc.sid and l.startswith("codec.r2 "))
         lines1 += [l for l in replay if l.split(" ")[1] == sc.sid and l.startswith("codec.x2 ")]
         items = [(i, it) for i, it in t2.tl2_items(sc)]
@@ -62,7 +85,7 @@ def run(c):
                 if a == "panic":
                     c.oracle_fail(l, "WriteTL2 of a FillRandom value panics", l)
                 elif a.startswith("ok "):
-                    lines2.add(t2.r2_line(sc, inst, t2.unhex(a[3:])))
+                    produced[t2.r2_line(sc, inst, t2.unhex(a[3:]))] = l      # bytes written by WriteTL2: must read back exactly (phase D)
                     c.count("codec.rand2:ok")
                 elif a == "fillpanic":
                     c.count("codec.rand2:fillpanic")     # FillRandom itself panicked (no value obtained): C18's concern
@@ -80,7 +103,7 @@ def run(c):
                         lines2.add(t2.r2_line(sc, inst, t2.mutate2(rng, b)))
                 lines2.add(t2.r2_line(sc, inst, rng.bytes(rng.below(24))))
         res = c.tie("tl1-to-tl2:" + sc.sid, lines1, sc.impl, model, prefix=pre) if lines1 else []
-        again = {}
+        again = dict(produced)
 
         def note(l, w2):
             f = l.split(" ")
@@ -109,6 +132,31 @@ def run(c):
             if not a.startswith("ok %d w2=%s " % (n, w2)):
                 c.oracle_fail(l, "TL2 round trip fails: bytes written by WriteTL2 do not read back exactly / re-encode identically "
                                  "(got `%s`; written for input `%s`)" % (a[:100], again[l][:160]), l)
+        # (E) []byte variants of the generated code (--generateByteVersions): not modelled (slice-backed dictionaries keep
+        # insertion order), so implementation only: FillRandom -> WriteTL2 -> ReadTL2 (fresh object) -> WriteTL2 must be identical
+        if sc.bytes_wl:
+            bimpl = sc.impl + ["-bytes"]
+            bitems = [(i, it) for i, it in items if any(i["tlname"].startswith(p) for p in sc.bytes_wl.split(","))]
+            rnd = [("codec.rand2 %s %d %s %d" % (sc.sid, inst["idx"], inst["tlname"], rng.below(2 ** 32)), inst)
+                   for inst, it in bitems for _ in range(per * 2)]
+            wit = by_name.get(BYTES_WITNESS[0])
+            bl = {}
+            if wit is not None:
+                bl["codec.r2 %s %d %s %s" % (sc.sid, wit["idx"], wit["tlname"], BYTES_WITNESS[1])] = (wit, BYTES_WITNESS[1], True)
+            for (l, inst), a in zip(rnd, run_lines(bimpl, [l for l, _ in rnd], prefix=pre)):
+                if a.startswith("ok "):
+                    bl.setdefault("codec.r2 %s %d %s %s" % (sc.sid, inst["idx"], inst["tlname"], a[3:]), (inst, a[3:], False))
+            bls = sorted(bl)
+            for l, a in zip(bls, run_lines(bimpl, bls, prefix=pre)):
+                inst, w2, is_wit = bl[l]
+                c.evaluations += 1
+                c.count("bytes:" + a.split(" ")[0])
+                n = 0 if w2 == "-" else len(w2) // 2
+                if not a.startswith("ok %d w2=%s " % (n, w2)):
+                    has_dict = "dict" in cc_reach(sc, inst["idx"])
+                    key = (BYTES_KEY if (has_dict and sc.sid == "cases") else l + " #bytes")
+                    c.oracle_fail(key, "[]byte variant: TL2 round trip fails (%s): read back and re-written as `%s`" % (
+                        "dictionary contents lost" if has_dict else "unexpected", a[:80]), l + " #bytes")
     if fillpanics:
         c.notes.append("FillRandom itself panics for %s (no value obtained; not counted against C03)" % ", ".join(sorted(fillpanics)))
     c.extra["rule"] = ("(A) valid type-directed TL1 encodings and FillRandom values of every TL1-origin TL2-enabled factory item are decoded and written in TL2; "
